@@ -412,4 +412,20 @@ def ItemsOK (post : List Byte) : List SrcItem → Prop
   | .esc body v :: its =>
     EscShape body ∧ readEscapedChar (body ++ (renderItems its ++ 34#8 :: post)) = .ok (v, body.length) ∧ ItemsOK post its
 
+-- ------------------------------------------------------------------ vocabulary of the integer-constant theorem
+
+/-- the bytes of an ASCII spelling -/
+def sfxBytes (s : String) : List Byte := s.toList.map (fun ch => BitVec.ofNat 8 ch.toNat)
+
+/-- spellings of integer constants: base, the prefix `convert_pp_int` skips, the digits `strtoul` reads -/
+inductive IntSpelling : Nat → List Byte → List Byte → Prop
+  | hex (x d : Byte) (ds : List Byte) : (x = 120#8 ∨ x = 88#8) → (∀ y ∈ d :: ds, isXDigit y = true) →
+      IntSpelling 16 [48#8, x] (d :: ds)
+  | bin (x d : Byte) (ds : List Byte) : (x = 98#8 ∨ x = 66#8) → (∀ y ∈ d :: ds, y = 48#8 ∨ y = 49#8) →
+      IntSpelling 2 [48#8, x] (d :: ds)
+  | oct (ds : List Byte) : (∀ y ∈ ds, isOctDigit y = true) → IntSpelling 8 [] (48#8 :: ds)
+  | dec (d : Byte) (ds : List Byte) : (49 ≤ d.toNat ∧ d.toNat ≤ 57) → (∀ y ∈ ds, ChibiVerif.Literals.isDigit y = true) →
+      IntSpelling 10 [] (d :: ds)
+
+
 end ChibiVerif.Literals
